@@ -850,3 +850,100 @@ Proof.
   pose proof (drain_frame c (queue s1) (set_vals s1 (vol s1) (dev s1) (foc s1) [])) as (_ & F7).
   destruct (drain c (set_vals s1 (vol s1) (dev s1) (foc s1) []) (queue s1)) as [s' d]. exact F7.
 Qed.
+
+(* ---- 6. the error path in the steady regime: every error of the main protocol's updater is forwarded ---- *)
+
+Fixpoint errs (l : list out) : list nat :=
+  match l with [] => [] | DErr p :: t => p :: errs t | _ :: t => errs t end.
+Fixpoint qerrs (l : list qitem) : list nat :=
+  match l with [] => [] | QErr p :: t => p :: qerrs t | _ :: t => qerrs t end.
+Fixpoint posted_errs (ops : list op) : list nat :=
+  match ops with [] => [] | Err p :: t => p :: posted_errs t | _ :: t => posted_errs t end.
+Definition fe (m : nat) (l : list nat) : list nat := filter (fun p => p =? m) l.
+
+Lemma errs_app a b : errs (a ++ b) = errs a ++ errs b.
+Proof. induction a as [|x a IH]; simpl; [reflexivity|]. destruct x; simpl; now rewrite IH. Qed.
+Lemma qerrs_app a b : qerrs (a ++ b) = qerrs a ++ qerrs b.
+Proof. induction a as [|x a IH]; simpl; [reflexivity|]. destruct x; simpl; now rewrite IH. Qed.
+Lemma fe_app m a b : fe m (a ++ b) = fe m a ++ fe m b.
+Proof. apply filter_app. Qed.
+
+Lemma errs_deliver_streaming c m s q :
+  streaming c m s -> errs (snd (deliver c s q)) = fe m (qerrs [q]).
+Proof.
+  intros (F & M & _). destruct q; simpl; rewrite ?F, ?M; simpl; try reflexivity.
+  - destruct (m =? p); reflexivity.
+  - rewrite (Nat.eqb_sym p m). destruct (m =? p); reflexivity.
+  - destruct (v =? vol s); reflexivity.
+  - destruct (v =? dev s); reflexivity.
+  - destruct (v =? foc s); reflexivity.
+Qed.
+
+Lemma errs_drain_streaming c m l : forall s,
+  streaming c m s -> errs (snd (drain c s l)) = fe m (qerrs l).
+Proof.
+  induction l as [|q l IH]; intros s S; [reflexivity|].
+  cbn [drain].
+  pose proof (errs_deliver_streaming c m s q S) as A.
+  pose proof (deliver_frame c s q) as ((_ & F2 & F3 & F4 & _) & _).
+  destruct (deliver c s q) as [s1 o1]. cbn [fst snd] in *.
+  pose proof (IH s1 (streaming_same c m s s1 F3 F4 F2 S)) as B.
+  destruct (drain c s1 l) as [s2 o2]. cbn [fst snd] in *.
+  change (q :: l) with ([q] ++ l). now rewrite errs_app, qerrs_app, fe_app, A, B.
+Qed.
+
+Lemma errors_gen c m : forall ops s,
+  streaming c m s -> quiet ops = true ->
+  errs (outs c s ops) ++ fe m (qerrs (queue (final c s ops))) =
+    fe m (qerrs (queue s) ++ posted_errs ops).
+Proof.
+  induction ops as [|o t IH]; intros s S Q.
+  - unfold outs. simpl. now rewrite app_nil_r.
+  - simpl in Q. apply andb_true_iff in Q as [Q1 Q2].
+    rewrite outs_cons, final_cons, errs_app, <- app_assoc.
+    pose proof S as (SF & SM & SL).
+    destruct o; try discriminate.
+    + rewrite (step_norun c s (Post p s0) eq_refl). simpl.
+      destruct (opt_eqb (prev s p) (Some s0)).
+      * rewrite IH; [|apply (streaming_same c m s); auto|assumption]. reflexivity.
+      * rewrite IH; [|apply (streaming_same c m s); auto|assumption]. simpl.
+        rewrite qerrs_app. destruct (lis s p); simpl; now rewrite app_nil_r.
+    + (* Err *)
+      rewrite (step_norun c s (Err p) eq_refl). simpl.
+      rewrite IH; [|apply (streaming_same c m s); auto|assumption]. simpl.
+      rewrite qerrs_app, <- app_assoc, !fe_app. f_equal.
+      change (p :: posted_errs t) with ([p] ++ posted_errs t). rewrite fe_app. f_equal.
+      destruct (p =? m) eqn:PM.
+      * apply Nat.eqb_eq in PM. subst p. rewrite SL. reflexivity.
+      * destruct (lis s p); simpl; rewrite PM; reflexivity.
+    + rewrite (step_norun c s (DispVol p v) eq_refl). simpl.
+      rewrite IH; [|apply (streaming_same c m s); auto|assumption]. simpl.
+      rewrite qerrs_app. simpl. now rewrite app_nil_r.
+    + rewrite (step_norun c s (DispDev p v) eq_refl). simpl.
+      rewrite IH; [|apply (streaming_same c m s); auto|assumption]. simpl.
+      rewrite qerrs_app. simpl. now rewrite app_nil_r.
+    + rewrite (step_norun c s (DispFocus p v) eq_refl). simpl.
+      destruct (opt_eqb (main_of (kregs c) (ktake s)) (Some p)); simpl.
+      * rewrite IH; [|apply (streaming_same c m s); auto|assumption]. simpl.
+        rewrite qerrs_app. simpl. now rewrite app_nil_r.
+      * now rewrite IH.
+    + simpl. destruct (queue s) as [|q tl] eqn:QQ; simpl.
+      * rewrite IH; [|assumption|assumption]. now rewrite QQ.
+      * set (s0 := set_vals s (vol s) (dev s) (foc s) tl).
+        assert (S0 : streaming c m s0) by (apply (streaming_same c m s); auto).
+        pose proof (errs_deliver_streaming c m s0 q S0) as A.
+        pose proof (deliver_frame c s0 q) as ((F1 & F2 & F3 & F4 & _) & F7).
+        destruct (deliver c s0 q) as [s' d]. cbn [fst snd] in *.
+        rewrite IH; [|apply (streaming_same c m s0); auto|assumption].
+        rewrite A, F7. simpl. rewrite <- fe_app. destruct q; reflexivity.
+    + simpl. set (s0 := set_vals s (vol s) (dev s) (foc s) []).
+      assert (S0 : streaming c m s0) by (apply (streaming_same c m s); auto).
+      pose proof (errs_drain_streaming c m (queue s) s0 S0) as A.
+      pose proof (drain_frame c (queue s) s0) as ((F1 & F2 & F3 & F4 & _) & F7).
+      destruct (drain c s0 (queue s)) as [s' d]. cbn [fst snd] in *.
+      rewrite IH; [|apply (streaming_same c m s0); auto|assumption].
+      rewrite A, F7. simpl. now rewrite fe_app.
+Qed.
+
+Lemma posted_errs_snoc_run : forall ops, posted_errs (ops ++ [RunAll]) = posted_errs ops.
+Proof. induction ops as [|o t IH]; [reflexivity|]. destruct o; simpl; now rewrite ?IH. Qed.
